@@ -26,14 +26,14 @@ from ..tlc import run_tlc, TLCFailure
 
 MODULE = "C12_Table"
 # Judge = emission + the four per-transition properties evaluated once per transition; the same four
-# properties are also listed one by one in the thorough tier
+# properties are also listed one by one for the first batch (templates) of the thorough tier
 STATE_INVS = ["TypeOK", "ViewDenotesCells", "FullKeyIsCell", "NestedIsCell", "SliceIsIdentity"]
 TRANS_INVS = ["RefinesOracle", "OuterElementWins", "ListRestricts", "ForeignIsError"]
 DESIGN_INVS = ["Judge"] + STATE_INVS + TRANS_INVS
 
 
-def cfg(tier):
-    invs = ["Judge"] + STATE_INVS + (TRANS_INVS if tier == "thorough" else [])
+def cfg(tier, first=True):
+    invs = ["Judge"] + STATE_INVS + (TRANS_INVS if tier == "thorough" and first else [])
     return "INIT Init\nNEXT Next\nVIEW StateView\nCHECK_DEADLOCK FALSE\n" + "".join(f"INVARIANT {i}\n" for i in invs)
 
 FA = 99
@@ -115,7 +115,7 @@ def make_tables(rng, tier):
         tables.append(dict(doms=doms, **table_params(doms, tier, hard)))
     for t in TEMPLATES:
         add(t)
-    n_rand = {1: 4, 2: 7, 3: 3} if tier == "quick" else {1: 30, 2: 36, 3: 16}
+    n_rand = {1: 4, 2: 7, 3: 3} if tier == "quick" else {1: 30, 2: 30, 3: 12}
     maxd = 3 if tier == "quick" else 4
     for nf, n in n_rand.items():
         target = len(tables) + n
@@ -186,9 +186,9 @@ def tuple_shaped_atom(sel, labeling):
 
 
 def shape_of(tr):
-    """Input shape for signatures. Exact component classes, except for three families that are named:
-    a tuple component that is a tuple of domain elements (T), an empty list of keys (L0), and a key and a
-    list component separated by a slice (numpy moves the indexed axes to the front there)."""
+    """Input shape for signatures: the exact component classes emitted by the spec (K key in domain, F foreign atom,
+    T foreign tuple, W whole domain, ":" slice, "..." ellipsis, P partial slice, L / Lf / L0 / Ld lists). Only the
+    drift-level shape "key and list separated by a slice" (numpy moves the indexed axes to the front) is named."""
     sel, cls = tr["sel"], tr["cls"]
     if tr["outer"]:
         return ("tup(" + ",".join(cls) + ")" if sel["k"] == "tup" else cls[0]) + "@outer"
@@ -198,10 +198,6 @@ def shape_of(tr):
     if not tr["strict"] and any(c in ("L", "L0") for c in cls) and len(adv) >= 2 and all(c in ("K", "L", "L0", ":", "...") for c in cls) and any(
             cls[j] in (":", "...") for a, b in zip(adv, adv[1:]) for j in range(a + 1, b)):
         return "tup(key+slice+list)"
-    if "T" in cls:
-        return "tup(..T..)"
-    if "L0" in cls:
-        return "tup(..L0..)"
     return "tup(" + ",".join(cls) + ")"
 
 
@@ -607,9 +603,7 @@ def judge_transition(ctx, table, state, tr, obj, root_names, objcls, labeling, c
                 d = f"reference machine raises {tr['rfam']}, code returned a value"
             else:
                 fam = family(r)
-                exp = tr["rfam"]
-                if is_mdp and exp in ("Key", "Index", "Domain"):
-                    exp = "SAIE"
+                exp = tr["rfamMdp"] if is_mdp else tr["rfam"]
                 if fam != exp and not tuple_shaped_atom(sel, labeling):
                     d = f"exception family {fam} ({type(r).__name__}), reference machine says {exp}"
         elif st == "err":
@@ -660,7 +654,7 @@ def combos_for(tid, nf):
 
 def tlc_states(ctx, tables, workers=8):
     """Run TLC over the tables; returns {tid: [state records sorted by chain length]}."""
-    res = run_tlc(ctx.workdir / f"mc{len(ctx.tlc_runs)}", MODULE, cfg(ctx.tier), files={"batch.json": tables},
+    res = run_tlc(ctx.workdir / f"mc{len(ctx.tlc_runs)}", MODULE, cfg(ctx.tier, first=not ctx.tlc_runs), files={"batch.json": tables},
                   env={"BATCH_FILE": "batch.json"}, workers=workers, coverage=False, heap="4g")
     ctx.add_tlc(res, f"mc: all selector chains (<= L) over {len(tables)} tables; every view x menu selector judged by O and R")
     bad = [v for v in res.violated if v in DESIGN_INVS]
@@ -712,6 +706,8 @@ def judge_table(ctx, table, tid, states, combos, *, mutate=None, build_hook=None
                 continue
             state["get_mod"] = 1 if only_sel is not None else 3
             state["iface_mod"] = 1 if only_sel is not None else 5
+            if not state["doms"]:
+                continue        # a cell: nothing to index (its value was compared at the transition that produced it)
             obj, reached = root, True
             for s in state["hist"]:
                 st, obj = call(lambda: obj[conc_sel(s, labeling)])
